@@ -92,7 +92,8 @@ def main(argv):
             print('%s %s: %d obligations, %d discharged, %d known, %d violation(s) [%s, %.2fs]%s' % (
                 prop, 'HOLDS' if code == 0 else ('VIOLATED' if code == 1 else 'ANALYSIS-ERROR'), cov['obligations'], cov['discharged'],
                 len(cov['known_findings']), ev['violations'], tier, ev['wall_s'],
-                '' if st is None else ' selftest %d/%d fired, %d/%d silent' % (st['fired'], st['must_fire'], st['silent'], st['must_silent'])))
+                '' if st is None else ' selftest %d/%d fired, %d/%d silent%s' % (st['fired'], st['must_fire'], st['silent'], st['must_silent'],
+                                                                                     (', not applicable on this tree: %s' % st['not_applicable']) if st['not_applicable'] else '')))
             worst = max(worst, code) if not (worst == 1 or code == 1) else 1
         except AnalysisError as ex:
             print('ANALYSIS-ERROR property=%s %s' % (prop, ex))
